@@ -740,6 +740,25 @@ pub fn nlj_left_reexecution_shape(plan: &Arc<dyn ExecutionPlan>) -> bool {
     plan.children().iter().any(|c| nlj_left_reexecution_shape(c))
 }
 
+/// Fourth symptom of the same re-execution defect: the left child is a *file scan* whose partitions
+/// share one work queue of files. If the in-memory attempt runs out of memory while only some of the
+/// files have been read (a matter of scheduling), the second execution sees only the files that were
+/// still queued: rows of the left side are silently lost. True if the plan has a NestedLoopJoinExec
+/// that took its fallback (spill metrics > 0) and has a DataSourceExec in its left subtree.
+pub fn nlj_left_reexecution_over_file_scan(plan: &Arc<dyn ExecutionPlan>) -> bool {
+    use datafusion_physical_plan::joins::NestedLoopJoinExec;
+    fn has_file_scan(p: &Arc<dyn ExecutionPlan>) -> bool {
+        p.name() == "DataSourceExec" || p.children().iter().any(|c| has_file_scan(c))
+    }
+    if let Some(nlj) = plan.downcast_ref::<NestedLoopJoinExec>() {
+        let spilled = nlj.metrics().map(|m| m.spill_count().unwrap_or(0) + m.spilled_rows().unwrap_or(0)).unwrap_or(0);
+        if spilled > 0 && has_file_scan(nlj.left()) {
+            return true;
+        }
+    }
+    plan.children().iter().any(|c| nlj_left_reexecution_over_file_scan(c))
+}
+
 pub fn nlj_fallback_kind(plan: &Arc<dyn ExecutionPlan>) -> Option<&'static str> {
     use datafusion::common::JoinType;
     use datafusion_physical_plan::joins::NestedLoopJoinExec;
